@@ -409,6 +409,7 @@ func checkC14(c *Ctx, r *Report) {
 				ops = append(ops, rs.Op)
 			}
 		}
+		checkWalkErrorsAbort(c, r, walk)
 		checkErrorsExamined(c, r, "retrieval-errors-examined", "the retried retrieval operation reports success only on paths where the errors of the walk and of both repository-info reads were compared with nil", 1, ops)
 	}
 
@@ -712,4 +713,29 @@ func lastCallBefore(ret *ssa.Return) string {
 // stripRecv: the signature of a method without its receiver (as an interface declares it).
 func stripRecv(sig *types.Signature) *types.Signature {
 	return types.NewSignatureType(nil, nil, nil, sig.Params(), sig.Results(), sig.Variadic())
+}
+
+// checkWalkErrorsAbort: nothing is skipped in the SDR walk — a path that found any exchange's
+// error non-nil does not go on to report a repository (rule shared by C14 and C13).
+func checkWalkErrorsAbort(c *Ctx, r *Report, walk *ssa.Function) {
+	name := c.FnName(walk)
+	r.Rule("walk-errors-abort", "on every path of the walk on which an exchange returned an error the walk returns an error: no record is left out of a repository reported as retrieved", 1)
+	okW, whyW := true, ""
+	posW := walk.Pos()
+	completeW2 := enumPaths(walk, 2, 200000, func(p CPath) {
+		ret, isRet := p.Last().(*ssa.Return)
+		if !isRet || ret.Parent() != walk || c.errOutcome(walk, p) == 1 {
+			return
+		}
+		for _, call := range p.failedErrorsOpt(func(f *ssa.Function) bool { return c.InModule(f) }, modPath, true) {
+			okW = false
+			whyW = "the walk reports a repository on a path on which " + shortName(calleeName(&call.Call)) + " returned an error: the record it was reading is silently left out"
+			posW = call.Pos()
+		}
+	})
+	if !completeW2 {
+		r.Unk(name+"|walk errors", walk.Pos(), "too many paths")
+	} else {
+		r.Check(okW, name+"|walk errors", posW, "every failed exchange ends the walk with an error", whyW)
+	}
 }
